@@ -13,8 +13,9 @@ THEOREMS = ["C08_lookup", "C08_lookup_unique", "C08_isolated_symbol", "C08_isola
             "C08_passes_code_blind", "C08_noninterference_program_full", "C08_renaming_program",
             "C08_export_before_and_after", "C08_emission_keeps_symbols",
             # the printer / front-end round trip that lifts the AST-level statements to source text
-            "Front_roundtrip", "Front_assemble_printed", "Front_assemble_ast_printed"]
-PROOF_HEADER = "From A816 Require Import Properties.C08 Properties.FrontEnd."
+            "Front_roundtrip", "Front_assemble_printed", "Front_assemble_ast_printed",
+            "TextLift_renaming", "TextLift_fi_independent", "TextLift_print_canon", "TextLift_pair_canon"]
+PROOF_HEADER = "From A816 Require Import Properties.C08 Properties.FrontEnd Properties.TextLift."
 RULE = ("generated nestings of blocks, named scopes, macro applications and loops with backward/forward/shadowing/"
         "sibling-reuse placements, plus the full shadowing matrix (outer definition x container x inner definition x reference form, width-inferred operands included); metamorphic twins: consistent renaming of a label, insertion of an unrelated definition "
         "inside another scope (output must not change); out-of-scope references (must be rejected); references to "
@@ -95,6 +96,22 @@ def cases(ctx):
         out.append({"kind": "sibling-reuse", "rom": rom, "spec": {"t": "twin", "labels": False},
                     "src": f"*={org:#08x}\n{{\nsame:\n.dl same\n}}\n{{\nnop\nsame:\n.dl same\n}}\n",
                     "twin_src": f"*={org:#08x}\n{{\nfirst:\n.dl first\n}}\n{{\nnop\nsecond:\n.dl second\n}}\n"})
+        # `:=` inside a block / named scope / macro body / loop body binds in THAT scope: an outer `:=` of the same name
+        # is shadowed inside and untouched outside (twin: the inner name renamed)
+        for wname, w in (("block", "{\n%s}\n"), ("scope", ".scope zz_as {\n%s}\n"), ("macro", ".macro zz_am() {\n%s}\nzz_am()\n"),
+                         ("for", ".for zz_ai := 0, 1 {\n%s}\n"), ("nested", "{\n{\n%s}\n.db width\n}\n")):
+            inner = "width := 3\n.db width\n.for zz_aj := 0, width {\n.db 0xEE\n}\n"
+            out.append({"kind": f"assign-shadow:{wname}", "rom": rom, "spec": {"t": "twin", "labels": False},
+                        "src": f"*={org:#08x}\nwidth := 2\n" + (w % inner) + ".db width\n.for zz_ak := 0, width {\n.db 0xDD\n}\n",
+                        "twin_src": f"*={org:#08x}\nwidth := 2\n" + (w % inner.replace("width", "zz_inner_w")).replace(".db width", ".db width")
+                                    + ".db width\n.for zz_ak := 0, width {\n.db 0xDD\n}\n"})
+        # `.if` / `else` open no scope: a name defined in either branch belongs to the scope the .if is written in
+        for cond, val in (("0", 0x20), ("1", 0x40)):
+            out.append({"kind": f"if-branch-no-scope:{cond}", "rom": rom, "spec": {"t": "twin", "labels": False},
+                        "src": (f"*={org:#08x}\nlimit = 0x11\n{{\n.if {cond} {{\nlimit = 0x40\n}} else {{\nlimit = 0x20\n}}\n.db limit\n}}\n.db limit\n"
+                                f".scope cfg {{\n.if {cond} {{\nnop\n}} else {{\nentry:\nsize = 2\n}}\n.if {cond} {{\nentry:\nsize = 3\n}}\nrts\n}}\n.dl cfg.entry\n.db cfg.size\n"),
+                        "twin_src": (f"*={org:#08x}\n.db {val}\n.db 0x11\n" + ("nop\n" if cond == "1" else "")
+                                     + f"zz_e:\nrts\n.dl zz_e{' - 1' if False else ''}\n.db {3 if cond == '1' else 2}\n")})
         # shadowing: the inner definition wins inside, the outer one outside
         out.append({"kind": "shadow", "rom": rom, "spec": {"t": "twin", "labels": False},
                     "src": f"*={org:#08x}\nx:\nnop\n{{\nnop\nx:\n.dl x\n}}\n.dl x\n",
@@ -181,7 +198,7 @@ def cases(ctx):
                 out.append({"kind": "export", "rom": rom, "src": src, "spec": {"t": "export", "name": "lab"}})
             out.append({"kind": "export-before", "rom": rom, "spec": {"t": "export", "name": "lab"},
                         "src": f"*={org:#08x}\n.dl sc.lab\n.scope sc {{\nnop\nlab:\nnop\n}}\n.dl sc.lab\n"})
-    return out
+    return core.mark_must_assemble(out, {'assign-shadow', 'export', 'if-branch-no-scope', 'same-scope-name-in-siblings', 'scope-in-macro-twice', 'shadow-width', 'export-any', 'counter-vs-outer', 'sibling-reuse', 'export-before'})
 
 
 def instantiate(gen_q):
